@@ -266,7 +266,7 @@ MEM_E(P_CHG, 3, MEMREC_NODUP_AT(memrec, vg_r, vg_r2))
 # define MEM_LEVEL_REQ   (libast_debug_level < DEBUG_MEM)
 #endif
 
-#ifdef U_LEVEL_OFF
+#if defined(U_LEVEL_OFF) && !defined(U_NO_MEM_WRAPPER_CONTRACTS)
 /* below DEBUG_MEM: plain allocator semantics, empty frame (malloc_rec and its table untouched) */
 void *spifmem_malloc(const char *filename, unsigned long line, size_t size)
 __CPROVER_requires(MEM_LEVEL_REQ && size <= (size_t) VCAP)
@@ -302,7 +302,7 @@ __CPROVER_ensures(__CPROVER_return_value[vg_n2] == 0 && (!(vg_k < vg_n2) || __CP
 ;
 #endif /* U_LEVEL_OFF */
 
-#ifdef U_LEVEL_ON
+#if defined(U_LEVEL_ON) && !defined(U_NO_MEM_WRAPPER_CONTRACTS)
 /* malloc / calloc: fresh block, recorded as the last record with (address, requested size, file, line) */
 void *spifmem_malloc(const char *filename, unsigned long line, size_t size)
 __CPROVER_requires(MEM_LEVEL_REQ && size <= (size_t) VCAP)
